@@ -6,6 +6,9 @@ import (
 	"fmt"
 	"math/rand"
 	"os"
+	"reflect"
+	"strings"
+	"sync"
 
 	"github.com/beevik/etree"
 	saml2 "github.com/russellhaering/gosaml2"
@@ -122,6 +125,11 @@ func ownSignedWith(b *idp.Builder, w *world.World, spec *idp.Assertion, standalo
 
 // BuildForgery assembles the concrete document for an abstract input.
 func BuildForgery(in *fInput, seed int64, claim bool) (doc []byte, lay idp.Layout) {
+	return BuildForgeryW(in, seed, claim, "")
+}
+
+// BuildForgeryW: as BuildForgery, with every wrapper element named wrapName ("" = drawn by seed).
+func BuildForgeryW(in *fInput, seed int64, claim bool, wrapName string) (doc []byte, lay idp.Layout) {
 	w := world.Get()
 	rng := rand.New(rand.NewSource(seed))
 	lay = layoutFor(rng, true)
@@ -203,14 +211,25 @@ func BuildForgery(in *fInput, seed int64, claim bool) (doc []byte, lay idp.Layou
 			}
 			node = ee
 		}
+		if k.Enc && k.Place == "encwrap" {
+			// the wrapping is inside the ciphertext: the plaintext is a wrapper around the assertion
+			wr := wrapperFor(b, rng, wrapName)
+			wr.AddChild(el)
+			ee, err := b.EncryptedAssertion(idp.Serialize(wr, lay, rng), idp.EncOpts{DataAlg: idp.DataAlgs[rng.Intn(5)], KeyTransport: idp.KeyTransports[rng.Intn(3)],
+				Pub: &idp.RSAKey("sp").PublicKey, Detached: rng.Intn(2) == 0, Recipient: pick(rng, w.SP.DER)})
+			if err != nil {
+				panic(err)
+			}
+			node = ee
+		}
 		if claim && k.Sig != "own" && !k.Enc {
-			el.CreateAttr("SignatureValidated", "true")
+			claimValidated(el)
 		}
 		switch k.Place {
-		case "direct":
+		case "direct", "encwrap":
 			root.AddChild(node)
 		case "wrapped":
-			wr := b.Wrapper("Extensions")
+			wr := wrapperFor(b, rng, wrapName)
 			wr.AddChild(node)
 			root.AddChild(wr)
 		case "nested":
@@ -228,7 +247,7 @@ func BuildForgery(in *fInput, seed int64, claim bool) (doc []byte, lay idp.Layou
 		}
 	}
 	if claim && in.Rsig != "gen" && !(in.Rsig == "lifted" && isGR0) {
-		root.CreateAttr("SignatureValidated", "true")
+		claimValidated(root)
 	}
 	switch in.Rsig {
 	case "att":
@@ -275,6 +294,74 @@ func BuildForgery(in *fInput, seed int64, claim bool) (doc []byte, lay idp.Layou
 		}
 	}
 	return idp.Serialize(root, lay, rng), lay
+}
+
+// claimValidated: what a sender does who hopes the decoder fills its bookkeeping fields from the message:
+// an attribute and child elements named after the field (no namespace, and the element's own namespace).
+func claimValidated(el *etree.Element) {
+	el.CreateAttr("SignatureValidated", "true")
+	c := etree.NewElement("SignatureValidated")
+	c.SetText("true")
+	el.AddChild(c)
+	c2 := etree.NewElement("SignatureValidated")
+	c2.Space = "sv"
+	if el.Tag == "Assertion" {
+		c2.CreateAttr("xmlns:sv", idp.NSAssertion)
+	} else {
+		c2.CreateAttr("xmlns:sv", idp.NSProtocol)
+	}
+	c2.SetText("true")
+	el.AddChild(c2)
+}
+
+var (
+	wrapOnce  sync.Once
+	wrapNames []string
+)
+
+// wrapperFor returns an empty wrapper element. Its name is drawn from SAML element names that may legally contain
+// other elements and from the NCName-shaped string literals of the library source under check (a wrapper the code
+// treats specially is then among them); names that the Response decoder reads itself are left out.
+func wrapperFor(b *idp.Builder, rng *rand.Rand, force string) *etree.Element {
+	wrapperNames()
+	name := wrapNames[rng.Intn(len(wrapNames))]
+	if rng.Intn(2) == 0 {
+		name = wrapNames[rng.Intn(9)] // the SAML names half of the time
+	}
+	if force != "" {
+		name = force
+	}
+	if rng.Intn(2) == 0 {
+		return b.El("a", name, true) // the assertion namespace may not be in scope here: declare it
+	}
+	return b.El("p", name, b.L.Prefix == 2)
+}
+
+func wrapperNames() []string {
+	wrapOnce.Do(func() {
+		taken := map[string]bool{"Assertion": true, "EncryptedAssertion": true, "Signature": true}
+		rt := reflect.TypeOf(types.Response{})
+		for i := 0; i < rt.NumField(); i++ {
+			f := strings.Fields(strings.Split(rt.Field(i).Tag.Get("xml"), ",")[0])
+			if len(f) > 0 {
+				taken[f[len(f)-1]] = true
+			}
+			taken[rt.Field(i).Name] = true
+		}
+		wrapNames = []string{"Extensions", "Advice", "Evidence", "StatusDetail", "Subject", "Conditions", "AttributeValue", "Object", "SubjectConfirmationData"}
+		for _, l := range SourceLiterals() {
+			ok := len(l) >= 3 && len(l) <= 40
+			for i, r := range l {
+				if !(r >= 'A' && r <= 'Z' || r >= 'a' && r <= 'z' || (i > 0 && r >= '0' && r <= '9')) {
+					ok = false
+				}
+			}
+			if ok && !taken[l] && l[0] >= 'A' && l[0] <= 'Z' {
+				wrapNames = append(wrapNames, l)
+			}
+		}
+	})
+	return wrapNames
 }
 
 func pick(rng *rand.Rand, der []byte) []byte {
@@ -408,6 +495,30 @@ func (Forgery) Run(c *orch.Case) *orch.Outcome {
 		return sp
 	})
 	o := observeSSO(sp, enc)
+	// the name of a wrapper element must not matter: for a quarter of the cases with a wrapped kid every name of
+	// the catalogue is tried (same seed, hence same keys, layout and namespace choice) and the first outcome that
+	// differs from the one above is reported instead
+	wrapped := false
+	for _, k := range in.Kids {
+		wrapped = wrapped || k.Place == "wrapped" || k.Place == "encwrap"
+	}
+	if wrapped && c.Seed%4 == 0 {
+		base, _ := json.Marshal([]any{o.Res, o.RFlag, o.Assertions, o.Info})
+		names := append([]string{}, wrapperNames()[:9]...)
+		lrng := rand.New(rand.NewSource(c.Seed))
+		for i := 0; i < 10 && len(wrapperNames()) > 9; i++ {
+			names = append(names, wrapperNames()[9+lrng.Intn(len(wrapperNames())-9)])
+		}
+		for _, name := range names {
+			d2, _ := BuildForgeryW(&in, c.Seed, claim, name)
+			e2 := idp.Encode(d2, deflate)
+			o2 := observeSSO(sp, e2)
+			if got, _ := json.Marshal([]any{o2.Res, o2.RFlag, o2.Assertions, o2.Info}); string(got) != string(base) {
+				o, doc, enc = o2, d2, e2
+				break
+			}
+		}
+	}
 	return &orch.Outcome{Obs: o, Trivial: false,
 		Replay: map[string]any{"encoded_response": enc, "deflate": deflate, "layout": lay, "sp": describeSP(sp), "document": string(doc), "claims_signaturevalidated_attribute": claim}}
 }
